@@ -34,7 +34,8 @@ def setup_side(env, disk_files=None):
         S.fired('rng_reseeded')
     if env.get('host'):
         S.patch_process_clock(se.clock, host=env['host'], pid=env.get('pid'), cpus=env.get('cpus'),
-                               mem_pages=env.get('mem_pages'))
+                               mem_pages=env.get('mem_pages'),
+                               numeric_locale=(env.get('environ') or {}).get('LC_NUMERIC'))
     pe = env.get('environ')
     if pe:
         # process environment of this side: nothing of it may reach stdout
